@@ -595,3 +595,55 @@ Example upgrade_example :
   /\ upgrade_conditions (mkReq (s2b "POST") 0 (s2b "/ws") HTTP11 3 hs []) = false
   /\ upgrade_conditions (mkReq (s2b "GET") 1 (s2b "/ws") HTTP11 3 (tl hs) []) = false.
 Proof. repeat split; reflexivity. Qed.
+
+(* ------------------------------------------------------------------ the 101 response, client side *)
+Lemma notin_contains2 : forall a b l, Forall (fun c => c <> a) l -> contains [a; b] l = false.
+Proof.
+  unfold contains. intros a b l Hl. induction Hl as [|c l Hc Hl IH]; [reflexivity|].
+  cbn [index has_prefix]. apply not_eq_sym in Hc. apply Z.eqb_neq in Hc. rewrite Hc. cbn [andb].
+  now destruct (index [a; b] l).
+Qed.
+
+Section Handshake.
+  Variable H : list Z -> list Z.
+  Hypothesis H_digest : forall x, length (H x) = 20%nat /\ Forall is_byte (H x).
+
+  Definition handshake_headers (key : list Z) : hdrs :=
+    [(s2b "Upgrade", s2b "websocket"); (s2b "Connection", s2b "Upgrade");
+     (s2b "Sec-WebSocket-Accept", compute_accept_key H key)].
+
+  (* the bundled client reads the 101 response with the request parser: "101" in the uri position
+     and the accept key in its header map under Sec-WebSocket-Accept (it does not check it) *)
+  Lemma upgrade_response_parsed : forall key,
+    fst (client_parse (upgrade_response H key))
+    = mkReq HTTP11 HTTP_METHOD_UNKNOWN (s2b "101") (s2b "Switching Protocols") HTTP_VERSION_UNKNOWN
+            (handshake_headers key) [].
+  Proof.
+    intros key.
+    destruct (accept_key_rfc6455 H H_digest key) as (_ & Hlen & Halpha & _).
+    assert (Hval : val_ok (compute_accept_key H key) = true).
+    { unfold val_ok. apply andb_true_iff. split.
+      - destruct (compute_accept_key H key); [discriminate Hlen | reflexivity].
+      - apply negb_true_iff. apply notin_contains2. eapply Forall_impl; [|exact Halpha].
+        intros c [Hin | ->]; [|discriminate].
+        assert (Hall : forallb (fun c => negb (c =? 13)) b64_alphabet = true) by (vm_compute; reflexivity).
+        rewrite forallb_forall in Hall. specialize (Hall c Hin). apply negb_true_iff in Hall.
+        now apply Z.eqb_neq in Hall. }
+    assert (Hshape : upgrade_response H key
+                     = HTTP11 ++ SP ++ s2b "101" ++ SP ++ s2b "Switching Protocols" ++ CRLF
+                       ++ (header_block (handshake_headers key) ++ CRLF ++ [])).
+    { unfold upgrade_response, handshake_headers, header_block. cbn [flat_map]. unfold header_line.
+      cbn [fst snd]. rewrite !app_nil_r. rewrite <- !app_assoc. reflexivity. }
+    rewrite Hshape. unfold client_parse, parse.
+    rewrite (parse_with_line_gen header_loop HTTP11 (s2b "101") (s2b "Switching Protocols") _ 200
+               eq_refl eq_refl eq_refl eq_refl eq_refl).
+    cbv zeta. change (eqfold (s2b "Switching Protocols") (s2b "HTTP/1.0")) with false.
+    change (eqfold (s2b "Switching Protocols") (s2b "HTTP/1.1")) with false. cbv iota.
+    rewrite header_loop_block.
+    - rewrite set_headers_distinct by reflexivity. reflexivity.
+    - unfold handshake_headers. cbn [forallb]. unfold hdr_ok at 3. cbn [fst snd]. rewrite Hval.
+      reflexivity.
+    - rewrite app_length. pose proof (header_block_length (handshake_headers key)) as Hbl.
+      change (length (handshake_headers key)) with 3%nat in *. lia.
+  Qed.
+End Handshake.
